@@ -133,32 +133,68 @@ class ScriptedCoupling:
             path_managers.append(pm)
 
 
-def scripted_criteria(alloc_table, conv_table, shared, default_conv=True):
-    """ConvergenceCriteria replaying tables: k-th compute_mc_paths call answers alloc_table[k] (padded
-    with 0 / truncated to the current number of levels), j-th criteria call answers conv_table[j];
-    exhausted tables answer 0 samples / default_conv."""
+def scripted_criteria(alloc, conv, shared, default_conv=True):
+    """ConvergenceCriteria whose answers are scripted.
+    alloc: table (k-th compute_mc_paths call answers alloc[k], padded with 0 / truncated to the current number
+           of levels; exhausted table answers 0 samples)  or  callable (k, n_levels, shared) -> list of ints;
+    conv : table (j-th criteria call; exhausted -> default_conv)  or  callable (j, shared) -> bool.
+    Every answer is recorded in shared.alloc_answers / shared.conv_answers (these are the oracle tables
+    the Coq model replays)."""
     from rpylib.montecarlo.multilevel.criteria import ConvergenceCriteria
     st = {"k": 0, "j": 0}
+    shared.alloc_answers = []
+    shared.conv_answers = []
 
     def compute_mc_paths(rmse, vl, cl):
         k = st["k"]
         st["k"] += 1
-        row = list(alloc_table[k]) if k < len(alloc_table) else []
         n = len(vl)
+        if callable(alloc):
+            row = [int(x) for x in alloc(k, n, shared)]
+        else:
+            row = list(alloc[k]) if k < len(alloc) else []
         row = (row + [0] * n)[:n]
         shared.alloc_calls.append((np.array(vl, dtype=float).copy(), np.array(cl, dtype=float).copy()))
+        shared.alloc_answers.append(list(row))
         shared.events.append(("alloc", k, tuple(row)))
         return np.array(row, dtype=int)
 
     def criteria(alpha, ml, rmse):
         j = st["j"]
         st["j"] += 1
-        ans = bool(conv_table[j]) if j < len(conv_table) else default_conv
+        if callable(conv):
+            ans = bool(conv(j, shared))
+        else:
+            ans = bool(conv[j]) if j < len(conv) else default_conv
         shared.conv_calls.append((alpha, np.array(ml, dtype=float).copy()))
+        shared.conv_answers.append(ans)
         shared.events.append(("conv", j, ans))
         return ans
 
     return ConvergenceCriteria(criteria=criteria, compute_mc_paths=compute_mc_paths)
+
+
+class WarningCatcher:
+    """observes the engine's logging (the post-loop return logs 'Initial number of Monte-Carlo paths ...')"""
+
+    def __enter__(self):
+        import logging
+
+        class H(logging.Handler):
+            def __init__(self):
+                super().__init__(level=logging.WARNING)
+                self.messages = []
+
+            def emit(self, record):
+                self.messages.append(record.getMessage())
+
+        self.h = H()
+        self.logger = logging.getLogger()
+        self.logger.addHandler(self.h)
+        return self.h
+
+    def __exit__(self, *a):
+        self.logger.removeHandler(self.h)
 
 
 def make_product(notional=1.0, dimension=1, fun=None):
